@@ -252,10 +252,17 @@ POOL_ENTRIES = [
       {"method": "misclassification_loss", "subtract_current": True},
       ("clf", "pwc"), sw="full", arb_idx=True, weight=0.4),
     E("VOI-EER", "ValueOfInformationEER", {}, ("clf", "pwc"), feat=False,
-      sw="full", arb_idx=True, weight=0.5),
+      sw="full", arb_idx=True, weight=0.5,
+      alt=[{"consider_labeled": False},
+           {"consider_unlabeled": False},
+           {"candidate_to_labeled": False}]),
     E("VOI-EER[subtract_current,normalize]", "ValueOfInformationEER",
       {"subtract_current": True, "normalize": True}, ("clf", "pwc"),
-      feat=False, sw="full", arb_idx=True, weight=0.4),
+      feat=False, sw="full", arb_idx=True, weight=0.4,
+      alt=[{"normalize": True, "consider_labeled": False},
+           {"normalize": True, "consider_unlabeled": False,
+            "candidate_to_labeled": False},
+           {"normalize": True, "consider_unlabeled": False}]),
     E("QBC[KL_divergence]", "QueryByCommittee", {"method": "KL_divergence"},
       ("ensemble", "pwc_list"), sw="full", arb_idx=True, sample_weight=True),
     E("QBC[vote_entropy]", "QueryByCommittee", {"method": "vote_entropy"},
